@@ -209,6 +209,32 @@ def scenario(c, inst, props):
             found.append(c.any(match) if match else False)
         c.check(P8 + ".every_detected_crossing_is_recorded", c.all(found), info=dict(rec=len(rec), spec=len(spec), dense=dense, backward=backward))
         c.check(P8 + ".distinct_events_never_merged", len(rec) >= len(spec), info=dict(rec=len(rec), spec=len(spec)))
+    # ------------------------------------------------------------------ C06: dense output after events / event-terminated runs / continuation
+    if "C06" in props and dense:
+        from .c06_dense import lookup_checks
+        if len(T) < 2:
+            c.note("outcome", "terminal event at the start time: no step recorded, the integrated range is a single point")
+            return
+        piece_checks(c, "c06.events", a, probe, backward)
+        vals = []
+        for i in range(len(T)):
+            st_, v_ = run(a.sol, T[i])
+            vals.append(st_ == "ok" and _eqv(c, v_, a.y[i]))
+        c.check("c06.events.solution_at_recorded_times_is_recorded_state", c.all(vals), info=dict(terminated=terminated, backward=backward))
+        if len(T) >= 2:
+            q = c.real("q")
+            c.assume((q - T[0]) * (T[-1] - q) >= 0)
+            lookup_checks(c, "c06.events", a, q, backward)
+        if terminated and not infinite:
+            rem = absval(c, tf - T[-1])
+            if bool(rem >= 1.0 / 64) and bool(rem <= 2 * absval(c, a.dt)):
+                st2, r2 = run(a.integrate, callback=[spans.cap_callback(c, 6, kind)])
+                if st2 == "ok":
+                    piece_checks(c, "c06.events.continued", a, probe, backward)
+                    q2 = c.real("q2")
+                    c.assume((q2 - a.t[0]) * (a.t[-1] - q2) >= 0)
+                    lookup_checks(c, "c06.events.continued", a, q2, backward)
+        return
     # ------------------------------------------------------------------ C09: terminal events
     if "C09" in props:
         if terminated:
